@@ -155,7 +155,7 @@ PROPS['C16'] = dict(
     trusted=[
         "participle v2.0.0 (third-party lexer/parser generator) is modelled by hand for THIS grammar: first-matching-rule lexer, struct-tag grammar with PeekAny semantics for elided tokens, greedy optional groups, strconv.ParseUint base 0 for numeric captures; the rule patterns, struct tags and elided token types are regenerated from asm/asm.go and pinned by #guard, so a grammar edit breaks the build; the lexer is also compared token by token with a participle lexer built from the rules found in the source",
         "the independent reading of a source (Vise/AsmSpec.lean on the Lean side, specParse in the harness on the Go side) is transcribed by hand from doc/texinfo/instructions.texi; comment-only, blank-with-spaces and leading blank lines are not documented and are outside it",
-        "dev/asm/main.go (the command line front end and its optional flag preprocessor) is not modelled: without -f it passes the file to asm.Parse unchanged",
+        "dev/asm/main.go (the command line front end, package main) is built as it is and run as a process on generated sources: without -f its output must equal the model of asm.Parse, with -f (flag preprocessor, asm/flag.go) the model replaces the flag names of CATCH/CROAK by their numbers first; the preprocessor's own lexer is not modelled beyond that",
         "participle's MaxIterations (1,000,000 lines) is not modelled",
     ],
     assumptions=["the theorem's domain SafeProg: names starting with a lower-case letter or one of _ * . ^ < >, selectors that are the wildcard, such a name, or a canonical decimal below 2^32, numbers below 2^32, batch lines last; everything else documented is covered by the oracle and the known findings"],
